@@ -131,14 +131,41 @@ func (e *Engine) ObserveUpstream() {
 // ObserveAnnotations reads annotations that are explicitly set in an annotation.Val, corresponding
 // to syntactically provided annotations rather than default values.
 func (e *Engine) ObserveAnnotations(pkgAnnotations *annotation.ObservedMap) {
+	type observedSite struct {
+		site primitiveSite
+		val  bool
+	}
+	var observed []observedSite
 	pkgAnnotations.Range(func(key annotation.Key, isDeep bool, val bool) {
-		site := e.primitive.site(key, isDeep)
-		if val {
-			e.observeSiteExplanation(site, TrueBecauseAnnotation{AnnotationPos: site.Position})
-		} else {
-			e.observeSiteExplanation(site, FalseBecauseAnnotation{AnnotationPos: site.Position})
-		}
+		observed = append(observed, observedSite{site: e.primitive.site(key, isDeep), val: val})
 	})
+
+	// `ObservedMap.Range` iterates over Go maps, so the sites are visited in _unspecified_ order.
+	// The order of observations decides the order of the sites in the inferred map (and hence
+	// in the exported facts), so we sort them here to ensure determinism.
+	slices.SortFunc(observed, func(a, b observedSite) int {
+		deep := func(s primitiveSite) int {
+			if s.IsDeep {
+				return 1
+			}
+			return 0
+		}
+		return cmp.Or(
+			cmp.Compare(a.site.PkgPath, b.site.PkgPath),
+			cmp.Compare(a.site.Position.Filename, b.site.Position.Filename),
+			cmp.Compare(a.site.Position.Offset, b.site.Position.Offset),
+			cmp.Compare(a.site.Repr, b.site.Repr),
+			cmp.Compare(deep(a.site), deep(b.site)),
+		)
+	})
+
+	for _, o := range observed {
+		if o.val {
+			e.observeSiteExplanation(o.site, TrueBecauseAnnotation{AnnotationPos: o.site.Position})
+		} else {
+			e.observeSiteExplanation(o.site, FalseBecauseAnnotation{AnnotationPos: o.site.Position})
+		}
+	}
 }
 
 // mapGuardMissingAndReturnToFuncSite returns two maps:
